@@ -244,6 +244,85 @@ def run_unity(job):
     return ('unity', 'n=%d unity_size=%d %s' % (n, usize, how), outcome, v, st, {'files': files, 'args': args})
 
 
+# ---- tests: every way a test can reach something that must be built, in every position ---------------------------------
+TEST_FORMS = ['exe', 'custom', 'index', 'found', 'found-sub', 'both']
+TEST_POSITIONS = ['program', 'args', 'depends', 'args-nested']
+
+
+def tests_project(kind='test'):
+    """One test per (form, position): the referenced target is used by that test only and is not built by default, so
+    nothing else puts it into meson-test-prereq.  forms: an executable, a custom target, an indexed custom target,
+    an executable found again through find_program() after meson.override_find_program() (same project / exported
+    by a subproject), a both_libraries() object."""
+    L = ["project('tp', 'c')", "sh = find_program('sh')", "subproject('tools')"]
+    files = {'main.c': 'int main(void) { return 0; }\n', 'lib.c': 'int tp_f(void) { return 1; }\n',
+             'subprojects/tools/main.c': 'int main(void) { return 0; }\n'}
+    S = ["project('tools', 'c')"]
+    n = 0
+    for form in TEST_FORMS:
+        for pos in TEST_POSITIONS:
+            if form in ('custom', 'index', 'both') and pos == 'program':
+                continue            # a test program is an executable (custom targets are accepted too, but must be runnable)
+            t = 'r%d' % n
+            n += 1
+            if form == 'exe':
+                L.append("%s = executable('%s', 'main.c', build_by_default: false)" % (t, t))
+                ref = t
+            elif form == 'custom':
+                L.append("%s = custom_target('%s', output: '%s.txt', command: [sh, '-c', 'echo x > \"$0\"', '@OUTPUT@'], build_by_default: false)" % (t, t, t))
+                ref = t
+            elif form == 'index':
+                L.append("%s = custom_target('%s', output: ['%s_a.txt', '%s_b.txt'], command: [sh, '-c', 'echo x > \"$0\"; echo y > \"$1\"', '@OUTPUT0@', '@OUTPUT1@'], build_by_default: false)" % (t, t, t, t))
+                ref = t + '[1]'
+            elif form == 'found':
+                L.append("%s_e = executable('%s', 'main.c', build_by_default: false)" % (t, t))
+                L.append("meson.override_find_program('%s-tool', %s_e)" % (t, t))
+                L.append("%s = find_program('%s-tool')" % (t, t))
+                ref = t
+            elif form == 'found-sub':
+                S.append("%s_e = executable('%s', 'main.c', build_by_default: false)" % (t, t))
+                S.append("meson.override_find_program('%s-tool', %s_e)" % (t, t))
+                L.append("%s = find_program('%s-tool')" % (t, t))
+                ref = t
+            else:
+                L.append("%s = both_libraries('%s', 'lib.c', build_by_default: false)" % (t, t))
+                ref = t
+            runner = "executable('run_%s', 'main.c')" % t
+            call = 'benchmark' if kind == 'benchmark' else 'test'
+            if pos == 'program':
+                L.append("%s('t_%s', %s)" % (call, t, ref))
+            elif pos == 'args':
+                L.append("%s('t_%s', %s, args: ['--x', %s])" % (call, t, runner, ref))
+            elif pos == 'args-nested':
+                L.append("%s('t_%s', %s, args: [['--x', [%s]], 'tail'])" % (call, t, runner, ref))
+            else:
+                if form in ('found', 'found-sub'):
+                    ref_dep = ref
+                else:
+                    ref_dep = ref
+                L.append("%s('t_%s', %s, depends: [%s])" % (call, t, runner, ref_dep))
+    files['meson.build'] = '\n'.join(L) + '\n'
+    files['subprojects/tools/meson.build'] = '\n'.join(S) + '\n'
+    return files
+
+
+def run_tests_family(job):
+    from verif import mesonproc as mp
+    idx, kind = job
+    root = os.path.join(scratch_root(), 'c04t.%d' % os.getpid())
+    shutil.rmtree(root, ignore_errors=True)
+    files = tests_project(kind)
+    mp.write_tree(root, files)
+    res = mp.run_meson(['setup', 'b'], root)
+    outcome, v, st = judge_setup(res, os.path.join(root, 'b'))
+    if outcome == 'configured':
+        # the family is only meaningful if introspection names the dependencies of (nearly) every test
+        tests = json.load(open(os.path.join(root, 'b', 'meson-info', 'intro-%ss.json' % kind)))
+        st['tests_with_depends'] = sum(1 for t in tests if t.get('depends'))
+    shutil.rmtree(root, ignore_errors=True)
+    return ('tests', kind, outcome, v, st, {'files': files, 'args': []})
+
+
 def dispatch(job):
     kind = job[0]
     if kind == 'unity':
@@ -252,6 +331,8 @@ def dispatch(job):
         return run_generated(job[1:])
     if kind == 'neg':
         return run_collision(job[1:])
+    if kind == 'tests':
+        return run_tests_family(job[1:])
     return run_corpus(job[1:])
 
 
@@ -304,6 +385,10 @@ def main():
     if ck.want('unity'):
         for n, usize, how in unity_cases():
             jobs.append(('unity', idx, n, usize, how))
+            idx += 1
+    if ck.want('tests'):
+        for kind in ('test', 'benchmark'):
+            jobs.append(('tests', idx, kind))
             idx += 1
     if ck.want('corpus'):
         dirs = corpus_dirs()
